@@ -233,6 +233,52 @@ def randomised(ctx, fa, n, maxops):
     return cases
 
 
+def flush_visibility(ctx, fa):
+    """Writer on a buffered real file: after Writer.flush() the file, read through a second handle while the writer is still open, holds
+    everything submitted so far - also when the Writer itself had nothing pending (right after creation, after records that were
+    dumped because the sync interval was reached, after a failed write)."""
+    import tempfile
+    import fastavro._write_py as W
+    tmpdir = tempfile.mkdtemp(prefix="verif_c07f_", dir=core.tlc.WORK)
+    cases = []
+    recs = [{"a": i, "b": "r%d" % i} for i in range(4)]
+    plans = [[], ["w"], ["w", "w"], ["bad"], ["w", "bad"], ["w", "w", "w"]]
+    try:
+        for codec in ("null", "deflate"):
+            for interval in (1, 100000):
+                for plan in plans:
+                    path = os.path.join(tmpdir, "f%d.avro" % len(cases))
+                    sub = []
+                    with open(path, "w+b") as fo:
+                        w = W.Writer(fo, SCHEMA_A, codec=codec, sync_interval=interval, sync_marker=bytes(range(16)))
+                        for k, st in enumerate(plan):
+                            if st == "w":
+                                w.write(recs[k])
+                                sub.append(recs[k])
+                            else:
+                                try:
+                                    w.write({"a": 1, "b": 5})
+                                except Exception:  # noqa: BLE001
+                                    pass
+                        w.flush()
+                        with open(path, "rb") as g:          # the writing handle is still open and was not flushed by us
+                            data = g.read()
+                    os.unlink(path)
+                    c = {"id": "fv%d" % len(cases), "op": "flushvis", "schema": proj.pj(SCHEMA_A), "records": [proj.pv(r) for r in sub],
+                         "file": list(data), "plan": plan, "codec": codec, "interval": interval}
+                    try:
+                        d = container.describe(data)
+                        c["hs"], c["inflate"] = d["hs"], d["inflate"]
+                    except Exception:  # noqa: BLE001 - an empty / damaged file: TLC's parser decides
+                        c["hs"], c["inflate"] = {"text": [], "tree": proj.pj(None)}, []
+                    cases.append(c)
+    finally:
+        import shutil
+        shutil.rmtree(tmpdir, ignore_errors=True)
+    core.judge_cases(ctx, cases, "flushvis", ("C07.",), describe=lambda c: "plan=%s codec=%s interval=%s file_len=%d" % (
+        c["plan"], c["codec"], c["interval"], len(c["file"])))
+
+
 def sig(c, clause):
     ops = c.get("ops", [])
     return {"tag_family": c.get("tag", "")[:12]}
@@ -295,6 +341,7 @@ def run_c07(ctx, fa):
                 "TLC against AvroWriter; non-trivial = >= 3 operations of >= 2 kinds including a flush") % (maxlen, 14 if ctx.quick() else 40)
     # group clause names: strip the @k suffix for tallying but keep it in the violation note
     res = core.judge_cases(ctx, cases, "hist", ("C07.",), nontrivial_fn=nontrivial, describe=describe, sig_fn=sig)
+    flush_visibility(ctx, fa)
     for k in ("wblock", "reopen"):
         ctx.extra["histories_with_" + k] = sum(1 for c in cases if k in c["ops"])
     ctx.extra["histories_with_failed_write"] = sum(1 for c in cases if any(e["op"] == "write" and e["raised"] for e in c["events"]))
